@@ -164,6 +164,10 @@ func collection(v any) []any {
 		// for a scalar.
 		return memberValues(v)
 	case []any:
+		if v == nil {
+			// An empty array, not a scalar.
+			return []any{}
+		}
 		return v
 	}
 	return nil
